@@ -7,8 +7,9 @@ import tlc
 
 SPEC = os.path.join(tlc.SPECS, 'Decide.tla')
 TRACE = os.path.join(tlc.SPECS, 'DecideTrace.tla')
-INVS = ['ReleaseOnlyWhenAllFinal', 'WaitIffNotFinal', 'SkipIffBadHard', 'NeverRunWithBadHard', 'DropOnlyIfDoneAndFresh',
-        'DoneAndFreshIsDropped', 'StatusFollows']
+INVS = ['ReferenceAllowed', 'SomethingAllowed', 'ReleaseOnlyWhenAllFinal', 'WaitOnlyIfNotFinal', 'NoWaitWhenAllFinal', 'SkipIffBadHard',
+        'SkipWhenFinalAndBadHard', 'NeverRunWithBadHard', 'DropOnlyIfDoneAndFresh', 'DoneAndFreshIsDropped', 'NoAssertWhenConstrained',
+        'StatusFollows']
 ALL_OWN = ['ABSENT', 'WAITING', 'DONE', 'FAILED', 'SKIPPED', 'PENDING']
 
 
@@ -41,10 +42,8 @@ def call_real(own, deps):
     try:
         res = q_mod.QueueScheduling.decide_new_state(task, dtasks, [dt for dt, dep in zip(dtasks, deps) if dep['hard']], env)
         decision = 'DROP' if res is None else TaskStatus(res).name
-    except AssertionError:
-        decision = 'ASSERT'
-    except Exception as ex:  # pylint: disable=broad-except
-        decision = 'RAISED:%s' % type(ex).__name__
+    except Exception:  # pylint: disable=broad-except
+        decision = 'ASSERT'           # any exception: the call refuses the input
     e = env.dictionary.get('t0')
     status = 'ABSENT' if e is None or 'status' not in e else TaskStatus(e['status']).name
     if own['st'] == 'ABSENT' and status == 'WAITING' and decision in ('DROP', 'ASSERT'):
@@ -61,7 +60,7 @@ def run(ctx, wd, pid):
     ctx.tlc(res, 'Decide/all-inputs')
     if not res.ok:
         raise tlc.MachineryError('Decide.tla: %s' % (res.violation,))
-    for wit in ('W_Drop', 'W_Stale', 'W_NoClock'):
+    for wit in ('W_Drop', 'W_Stale', 'W_NoClock', 'W_EarlySkip'):
         c2 = tlc.write_cfg(os.path.join(wd, wit + '.cfg'), constants=dict(consts, MaxDeps=2), invariants=[wit], deadlock=False)
         r2 = tlc.run(SPEC, c2, coverage=False)
         if r2.violation != ('invariant', wit):
@@ -73,9 +72,13 @@ def run(ctx, wd, pid):
         own = dict(st['own'])
         deps = [dict(x) for x in F(st['deps'])]
         obs, touched = call_real(own, deps)
-        exp = dict(st['out'])
+        out = dict(st['out'])
+        exp = dict(decision=out['decision'], status=out['status'])
         n += 1
-        if obs != exp or touched:
+        # acceptable: a decision TLC lists as allowed for this input, with the status that decision implies (Decide!Accepts)
+        ok = obs['decision'] in out['allowed'] and (out['free'] or obs['status'] == (
+            obs['decision'] if obs['decision'] in ('WAITING', 'SKIPPED', 'PENDING') else own['st']))
+        if not ok or touched:
             key = '%s/decide/%s-instead-of-%s/own=%s' % (pid, obs['decision'], exp['decision'], own['st'])
             ctx.violation(key, 'decide_new_state gives %s%s, Decide.tla expects %s' % (obs, ' and modifies a dependency entry' if touched else '', exp),
                           dict(own=own, deps=deps), module='conf_decide')
